@@ -79,8 +79,9 @@ def ref_wire(parts, origin=None, canonical=False) -> bytes:
 class F:
     """field generators; every method returns a python value; tags collect boundary classes"""
 
-    def __init__(self, rng, origin=None, relative_ok=True, plain_names=False):
+    def __init__(self, rng, origin=None, relative_ok=True, plain_names=False, opaque_padding=False):
         self.rng = rng
+        self.opaque_padding = opaque_padding  # wire-only users: opaque fields may carry padding the text form cannot express
         self.origin = origin
         self.relative_ok = relative_ok and origin is not None
         self.plain = plain_names
@@ -841,7 +842,13 @@ def _svcb(f):
                 wire[k] = b
         if keys and rng.random() < 0.4:
             mand = sorted(rng.sample(sorted(keys), rng.randint(1, len(keys))))
-            params[0] = ("MAND", tuple(mand))
+            # the constructor takes the keys in any order and spelling (numbers, or names as the text reader passes them);
+            # the wire form lists them in ascending numeric order whatever was given
+            given = list(mand)
+            rng.shuffle(given)
+            if rng.random() < 0.5:
+                given = [("name", k) for k in given]
+            params[0] = ("MAND", tuple(given))
             wire[0] = b"".join(u16(k) for k in mand)
     w = b"".join(u16(k) + u16(len(wire[k])) + wire[k] for k in sorted(wire))
     return [prio, target, ("SVCPARAMS", params)], [u16(prio), target, w]
@@ -862,7 +869,12 @@ def g_uri(f):
 def g_wks(f):
     a = f.ipv4()
     proto = f.rng.choice((6, 17, 0, 255, f.uint(8)))
-    bm = f.blob(0, 20).rstrip(b"\x00")
+    bm = f.blob(0, 20)
+    if not f.opaque_padding:
+        # the text form lists port numbers, so octets after the last set bit are not representable there
+        bm = bm.rstrip(b"\x00")
+    elif f.rng.random() < 0.3:
+        bm = bm + b"\x00" * f.rng.randint(1, 3)
     return [a, proto, bm], [a, u8(proto), bm]
 
 
@@ -914,13 +926,13 @@ NAME_TYPES = [t for t in ("CH-A", "NS", "CNAME", "PTR", "DNAME", "NSAP-PTR", "SO
                           "RRSIG", "SIG", "NSEC", "HIP", "IPSECKEY", "AMTRELAY", "SVCB", "HTTPS", "TKEY", "TSIG", "DSYNC")]
 
 
-def gen(rng, tname, origin=None, relative_ok=True, plain_names=False, unknown_type=None):
+def gen(rng, tname, origin=None, relative_ok=True, plain_names=False, unknown_type=None, opaque_padding=False):
     rdclass, rdtype, fn = TABLE[tname]
     if tname in META_TYPES:
         # meta RRs never live in zones: their names are always absolute (TSIG.from_wire ignores the origin)
         relative_ok = False
         origin = None
-    f = F(rng, origin, relative_ok, plain_names)
+    f = F(rng, origin, relative_ok, plain_names, opaque_padding)
     if tname == "UNKNOWN":
         rdtype = unknown_type or rng.choice((65280, 65281, 65534, 300, 1000, 32770, 127))
         if rng.random() < 0.2:
@@ -963,7 +975,7 @@ def build(val):
                     d[S.ParamKey.make(k)] = {
                         "ALPN": lambda x: S.ALPNParam(x), "DOCPATH": lambda x: S.DoCPathParam(x), "PORT": lambda x: S.PortParam(x),
                         "V4": lambda x: S.IPv4HintParam(x), "V6": lambda x: S.IPv6HintParam(x), "ECH": lambda x: S.ECHParam(x),
-                        "GEN": lambda x: S.GenericParam(x), "MAND": lambda x: S.MandatoryParam(x),
+                        "GEN": lambda x: S.GenericParam(x), "MAND": lambda x: S.MandatoryParam([S.key_to_text(k[1]).encode() if isinstance(k, tuple) else k for k in x]),
                     }[kind](x)
             args.append(d)
         elif isinstance(a, tuple) and len(a) == 2 and a[0] == "OPTIONS":
